@@ -296,7 +296,7 @@ where
 
             let buffer = crate::utils::to_aligned(body)
                 .await
-                .map_err(|e| Status::internal(e.message()))?;
+                .map_err(|e| Status::connection(e.message()))?;
             let status =
                 DataView::<Status>::using(buffer).map_err(|_| Status::invalid())?;
             Err(status
